@@ -275,6 +275,28 @@ class PrevOracle:
                 for n in gone:
                     if pst["patches"][n]["oid"] not in hist:
                         return "commit of committed patch %r is no longer in the branch history" % n
+            # any selection: the base moves over exactly the committed patches, in stack order,
+            # each keeping its authorship and message (the re-merged trees above a non-bottom
+            # selection may legitimately differ, so no tree is compared here)
+            g = real.r.git
+
+            def base_of(s, branch):
+                if s["applied"]:
+                    return g(["rev-parse", s["patches"][s["applied"][0]]["oid"] + "^"]).stdout.strip()
+                return branch
+            b0, b1 = base_of(pst, prev["branch"]), base_of(st, cur["branch"])
+            between = g(["rev-list", "--first-parent", "--reverse", "%s..%s" % (b0, b1)], check=False).stdout.split()
+            if len(between) != k:
+                return "stg commit of %d patch(es) moved the base over %d commit(s)" % (k, len(between))
+            ident = lambda o: g(["log", "-1", "--format=%an%x00%ae%x00%ad%x00%B", o]).stdout
+            want = [ident(pst["patches"][n]["oid"]) for n in pst["applied"] + pst["unapplied"] if n in gone]
+            got = [ident(o) for o in between]
+            if any(n in pst["unapplied"] for n in gone):
+                # unapplied patches are pushed first: only the set is pinned down by the property
+                got, want = sorted(got), sorted(want)
+            if got != want:
+                return ("the commits between the old and the new base are not the committed patches in stack "
+                        "order: %r vs %r; before %r/%r after %r/%r gone %r" % ([x[:60] for x in got], [x[:60] for x in want], pst["applied"], pst["unapplied"], st["applied"], st["unapplied"], gone))
         return None
 
 
